@@ -288,8 +288,31 @@ def fixedpoint_vs_fixedinterval(ctx, cfg, d, field, u0s, t0, t1, tol):
     ctx.case(dict(cfg.key(), d=d, mode="fixedpoint-vs-fixedinterval", checkpoints=len(cps)))
 
 
+def solve_function_reuse(ctx):
+    """the function returned by `solve_adaptive_save_every_step` called twice on the same problem returns the same
+    solution twice (seeded change C03-s12: a step buffer shared between calls)"""
+    from probdiffeq import probdiffeq as pdq
+    from probdiffeq.util import test_util
+
+    field = problems.PolyField(1, 1, [[(Fraction(1), (1, 0)), (Fraction(-1), (2, 0))]])
+    cfg = sm.Config(fact="iso", solver="solver", strategy="fixedinterval", lin="ts0", q=2)
+    objs = sm.build(cfg, field, [np.array([0.125])], 0.0)
+    err = pdq.error_residual_std(constraint=objs["constraint"])
+    solve = test_util.solve_adaptive_save_every_step(objs["solver"], err, clip_dt=False)
+    outs = []
+    for _ in range(2):
+        sol = solve(objs["prior"], 0.0, 1.0, atol=1e-3, rtol=1e-3, dt0=0.1)
+        outs.append((np.asarray(sol.t), np.asarray(sol.u.mean[0]), np.asarray(sol.u.std[0])))
+    case = {"mode": "same solve function called twice", "t first": outs[0][0].tolist(), "t second": outs[1][0].tolist()}
+    ctx.case(case)
+    ctx.count("solve-function-reuse")
+    if not all(a.shape == b.shape and np.array_equal(a, b) for a, b in zip(outs[0], outs[1])):
+        ctx.violation("every-step:solve-function-reuse", "the second call of the same save-every-step solve function returns a different solution (times / means / stds) than the first", case)
+
+
 def corpus(ctx):
     """D1: logistic ODE on the grid [0,.1,.25,.5,.6] - terminal smoothed marginal must be the filtering marginal."""
+    solve_function_reuse(ctx)
     field = problems.PolyField(1, 1, [[(Fraction(1), (1, 0)), (Fraction(-1), (2, 0))]])
     for fact in ("dense", "iso", "bd"):
         cfg = sm.Config(fact=fact, solver="solver", strategy="fixedinterval", lin="ts0", q=2)
